@@ -468,7 +468,7 @@ class Gate(metaclass=value.ABCMetaImplementAnyOneOf):
             return None
 
         qs = line_qubit.LineQid.for_qid_shape(protocols.qid_shape(self))
-        return protocols.commutes(self(*qs), other(*qs))
+        return protocols.commutes(self(*qs), other(*qs), atol=atol)
 
     def _mul_with_qubits(self, qubits: tuple[cirq.Qid, ...], other):
         """cirq.GateOperation.__mul__ delegates to this method."""
@@ -1159,4 +1159,4 @@ def _operations_commutes_impl(
     if m12 is None or m21 is None:
         return NotImplemented
 
-    return np.allclose(m12, m21, atol=atol)
+    return np.allclose(m12, m21, rtol=0, atol=atol)
